@@ -456,9 +456,15 @@ type (
 		hp1
 	}
 	hp6 struct{ G [2]int64 }
+	hp7 struct{ H *hp7 } // registered by pointer
+	hp8 []hp2
+	hp9 map[string]*hp1
+	hpA int64
 )
 
-var hashPool = []interface{}{hp1{}, hp2{}, hp3{}, hp4{}, hp5{}, hp6{}}
+// values of struct, pointer, slice, map and basic kinds (a type and a pointer to it are never both
+// registered: encoding/gob refuses that)
+var hashPool = []interface{}{hp1{}, hp2{}, hp3{}, hp4{}, hp5{}, hp6{}, &hp7{}, hp8{}, hp9{}, hpA(0)}
 
 func typesHashInFreshProcess(order string) (string, error) {
 	cmd := exec.Command(os.Args[0], "-test.run", "^TestHashHelper$")
